@@ -512,11 +512,13 @@ def _process(cls: t.Type[PaneBase], opts: PaneOptions):
         if '__init__' in cls.__dict__:
             raise TypeError(f"Can't overwrite __init__ function in class {cls.__name__}")
         _make_init(cls, fields)
+    # (decided before `__eq__` is generated: `__hash__ = None` in the class body is explicit
+    # unless the class body also defines `__eq__`, as in the standard library)
+    _maybe_make_hash(cls, fields)
     if opts.eq and '__eq__' not in cls.__dict__:
         _make_eq(cls, fields)
     if opts.order and not any(k in cls.__dict__ for k in ('__lt__', '__gt__', '__le__', '__ge__')):
         _make_ord(cls, fields)
-    _maybe_make_hash(cls, fields)
 
     return cls
 
